@@ -1599,7 +1599,7 @@ def _dd_build():
             a["model"] = r.choice(("ising", "qfa", "qfan", "simon", "qft", "iqft", "shor", "exciton_chain", "co_oxidation",
                                    "fpu_coefficients", "kuramoto_coefficients", "signaling_cascade", "toll_station",
                                    "two_step_destruction"))
-            a["n"] = r.randint(1, 4)
+            a["n"] = r.randint(0, 4)      # size parameter n+1 = 1..5: the smallest sizes are where first/last-core special cases meet
             a["flag"] = r.random() < 0.5
         return {"op": "dd_build", "in": {}, "dest": ctx.dest(2), "args": a}
 
